@@ -34,6 +34,9 @@ pub struct CliCase {
     pub load_paths: Vec<String>,
     pub plan: String,
     pub shim_seed: u64,
+    /// environment of the child besides the shim's own variables ("{ROOT}" = scratch directory);
+    /// none of it is an option of the tool, so none of it may change a byte
+    pub env: Vec<(String, String)>,
 }
 
 impl CliCase {
@@ -44,6 +47,7 @@ impl CliCase {
             "argv": self.argv, "entry": self.entry, "output": self.output,
             "expect_options": {"compressed": self.compressed, "quiet": self.quiet, "unicode": self.unicode, "charset": self.charset, "load_paths": self.load_paths},
             "plan": self.plan, "shim_seed": self.shim_seed,
+            "env": self.env.iter().map(|(k, v)| json!([k, v])).collect::<Vec<_>>(),
         })
     }
     fn from_json(v: &Value) -> Option<CliCase> {
@@ -69,6 +73,7 @@ impl CliCase {
             load_paths: o.get("load_paths").and_then(|a| a.as_array()).map(|a| a.iter().filter_map(|s| s.as_str().map(|s| s.to_string())).collect()).unwrap_or_default(),
             plan: v.get("plan").and_then(|s| s.as_str()).unwrap_or("").to_string(),
             shim_seed: v.get("shim_seed").and_then(|s| s.as_u64()).unwrap_or(1),
+            env: v.get("env").and_then(|a| a.as_array()).map(|a| a.iter().filter_map(|p| Some((p.get(0)?.as_str()?.to_string(), p.get(1)?.as_str()?.to_string()))).collect()).unwrap_or_default(),
         })
     }
 }
@@ -144,6 +149,7 @@ fn run_cli(ctx: &Ctx, dir: &Path, case: &CliCase) -> Result<CliRun, String> {
         .env("VERIF_SHIM_LOG", &log)
         .env("VERIF_SHIM_SEED", case.shim_seed.to_string())
         .env("VERIF_FAULT_PLAN", case.plan.replace("{ROOT}", &root))
+        .envs(case.env.iter().map(|(k, v)| (k.clone(), v.replace("{ROOT}", &root))))
         .stdin(if case.stdin.is_some() { Stdio::piped() } else { Stdio::null() })
         .stdout(Stdio::piped())
         .stderr(Stdio::piped());
@@ -406,6 +412,16 @@ fn gen_case(rng: &mut Rng, ctx: &Ctx, pools: &Pools) -> CliCase {
             load_paths.insert(pos, "not-a-dir".into());
         }
     }
+    // the working directory itself as a load path, spelled "." or as the empty string (which the
+    // library joins with the URL like any other): a file below a subdirectory then finds what
+    // lies next to the working directory
+    let cwd_lp = ext != "css" && !use_stdin && rng.chance(0.08);
+    if cwd_lp {
+        files.push(("_cwdlib.scss".into(), b".cwdlib { found: through-the-working-directory; }\n".to_vec()));
+        let pos = rng.usize_below(load_paths.len() + 1);
+        load_paths.insert(pos, if rng.chance(0.6) { String::new() } else { ".".into() });
+        pre.push_str(&format!("@import \"cwdlib\"{}\n", semi));
+    }
     if n_lp > 0 {
         if rng.chance(0.3) {
             load_paths.reverse();
@@ -499,13 +515,29 @@ fn gen_case(rng: &mut Rng, ctx: &Ctx, pools: &Pools) -> CliCase {
         flagsv.push(vec!["--precision".into(), "5".into()]);
     }
     rng.shuffle(&mut flagsv);
+    // short flags may be written as one group, with the value of -s / -t attached or following
+    let short_q = flagsv.iter().position(|f| f.len() == 1 && f[0] == "-q");
+    let short_s = flagsv.iter().position(|f| f.len() == 2 && (f[0] == "-s" || f[0] == "-t"));
+    if let (Some(qi), Some(si)) = (short_q, short_s) {
+        if rng.chance(0.6) {
+            let letter = flagsv[si][0][1..].to_string();
+            let value = flagsv[si][1].clone();
+            flagsv[si] = if rng.chance(0.5) { vec![format!("-q{}{}", letter, value)] } else { vec![format!("-q{}", letter), value] };
+            flagsv.remove(qi);
+        }
+    } else if let Some(si) = short_s {
+        if rng.chance(0.3) {
+            flagsv[si] = vec![format!("{}{}", flagsv[si][0], flagsv[si][1])];
+        }
+    }
     for f in flagsv {
         argv.extend(f);
     }
     // load paths keep their relative order
     let mut lp_args: Vec<String> = vec![];
     for lp in &load_paths {
-        match rng.below(4) {
+        // (an empty value cannot be attached to the short flag)
+        match if lp.is_empty() { rng.below(3) } else { rng.below(4) } {
             0 => {
                 lp_args.push("-I".into());
                 lp_args.push(lp.clone());
@@ -550,7 +582,7 @@ fn gen_case(rng: &mut Rng, ctx: &Ctx, pools: &Pools) -> CliCase {
     } else {
         // the input may live in a subdirectory and import a sibling: relative imports start
         // at the file's own directory, not at the working directory
-        let in_sub = ext != "css" && rng.chance(0.25);
+        let in_sub = ext != "css" && (cwd_lp || rng.chance(0.25));
         let mut text = text.clone();
         let name = if in_sub { format!("src/in{}.{}", tagn % 7, ext) } else { format!("in{}.{}", tagn % 7, ext) };
         if in_sub {
@@ -625,7 +657,37 @@ fn gen_case(rng: &mut Rng, ctx: &Ctx, pools: &Pools) -> CliCase {
         a2.extend(argv);
         argv = a2;
     }
-    CliCase { files, stdin, argv, entry, output, compressed, quiet, unicode: !no_unicode, charset: !no_charset, load_paths, plan: String::new(), shim_seed: 1 + rng.below(1 << 40) }
+    // the environment is no option of the tool: whatever a shell, a CI system or a wrapper script
+    // exports, the bytes and the exit status stay what the flags say
+    let mut env: Vec<(String, String)> = vec![];
+    if rng.chance(0.3) {
+        let pool: [(&str, &[&str]); 14] = [
+            ("NO_COLOR", &["1", ""]),
+            ("CLICOLOR_FORCE", &["1"]),
+            ("FORCE_COLOR", &["1"]),
+            ("TERM", &["dumb", "xterm-256color", ""]),
+            ("COLUMNS", &["20", "0", "abc"]),
+            ("LANG", &["C", "de_DE.UTF-8", "tr_TR.ISO-8859-9"]),
+            ("LC_ALL", &["C", "POSIX", "ja_JP.eucJP"]),
+            ("SASS_PATH", &["{ROOT}/envdecoy", "envdecoy", "{ROOT}/envdecoy:{ROOT}"]),
+            ("SASS_STYLE", &["compressed", "expanded"]),
+            ("SASS_QUIET", &["1"]),
+            ("HOME", &["/nonexistent", "{ROOT}/envdecoy"]),
+            ("PWD", &["/", "{ROOT}/envdecoy"]),
+            ("TMPDIR", &["/nonexistent"]),
+            ("RUST_BACKTRACE", &["1", "full"]),
+        ];
+        for _ in 0..rng.range(1, 4) {
+            let (k, vs) = rng.pick(&pool);
+            if !env.iter().any(|(e, _)| e == k) {
+                env.push((k.to_string(), rng.pick(vs).to_string()));
+            }
+        }
+        for n in ["_lib.scss", "_only.scss", "_sibling.scss", "lib.css"] {
+            files.push((format!("envdecoy/{}", n), b".env-decoy { reached: through-the-environment; }\n".to_vec()));
+        }
+    }
+    CliCase { files, stdin, argv, entry, output, compressed, quiet, unicode: !no_unicode, charset: !no_charset, load_paths, plan: String::new(), shim_seed: 1 + rng.below(1 << 40), env }
 }
 
 fn fault_plans(case: &CliCase, base: &CliRun) -> Vec<String> {
